@@ -263,45 +263,45 @@ Qed.
 (* ---------------------------------------------------------------------------------------------- *)
 (** * chunk *)
 
+Lemma chunk_fuel_cons fuel n (l : list N) :
+  l <> [] -> chunk_fuel (S fuel) n l = firstn n l :: chunk_fuel fuel n (skipn n l).
+Proof. destruct l; [congruence|reflexivity]. Qed.
+
+Lemma chunk_fuel_nil fuel n : chunk_fuel fuel n [] = [].
+Proof. destruct fuel; reflexivity. Qed.
+
 Lemma chunk_fuel_pieces (n : nat) : forall (ps : list (list N)) (fuel : nat),
   (1 <= n)%nat ->
   (length (concat ps) <= fuel)%nat ->
   all_but_last (fun x => N.of_nat (length x) =? N.of_nat n) ps = true ->
-  (1 <= length (last ps [0%N]))%nat -> (length (last ps []) <= n)%nat ->
-  ps <> [] ->
+  (1 <= length (last ps []))%nat -> (length (last ps []) <= n)%nat ->
   chunk_fuel fuel n (concat ps) = ps.
 Proof.
-  induction ps as [|p ps IH]; intros fuel Hn Hf Hab Hl1 Hl2 Hne; [congruence|].
-  destruct ps as [|p2 ps].
-  - (* last piece *)
-    simpl in *. rewrite app_nil_r in *.
-    destruct fuel as [|fuel]; [destruct p; simpl in *; lia|].
-    simpl. destruct p as [|b p]; [simpl in Hl1; lia|].
-    rewrite firstn_all2 by exact Hl2. rewrite skipn_all2 by exact Hl2.
-    destruct fuel; reflexivity.
-  - assert (Hp : length p = n).
-    { simpl in Hab. apply andb_prop in Hab. destruct Hab as [Hab _]. apply N.eqb_eq in Hab. lia. }
-    assert (Hab' : all_but_last (fun x => N.of_nat (length x) =? N.of_nat n) (p2 :: ps) = true).
-    { simpl in Hab. apply andb_prop in Hab. destruct Hab as [_ Hab]. exact Hab. }
-    change (concat (p :: p2 :: ps)) with (p ++ concat (p2 :: ps)) in *.
-    rewrite app_length in Hf.
-    destruct fuel as [|fuel]; [lia|].
-    simpl chunk_fuel.
-    destruct (p ++ concat (p2 :: ps)) as [|b rest] eqn:E.
-    { destruct p; [simpl in Hp; lia|discriminate]. }
-    rewrite <- E.
-    rewrite firstn_app, Hp, Nat.sub_diag, firstn_O, app_nil_r.
-    rewrite <- Hp at 1. rewrite firstn_all.
-    rewrite skipn_app, Hp, Nat.sub_diag, skipn_O.
-    rewrite <- Hp at 1. rewrite skipn_all. simpl app.
-    f_equal. apply IH; auto; try lia.
-    discriminate.
+  induction ps as [|p ps IH]; intros fuel Hn Hf Hab Hl1 Hl2.
+  - simpl in Hl1. lia.
+  - destruct ps as [|p2 ps].
+    + (* the last piece *)
+      simpl in Hl1, Hl2, Hf. simpl concat. rewrite app_nil_r in *.
+      destruct fuel as [|fuel]; [lia|].
+      rewrite chunk_fuel_cons by (destruct p; simpl in *; [lia|discriminate]).
+      rewrite firstn_all2 by exact Hl2. rewrite skipn_all2 by exact Hl2.
+      rewrite chunk_fuel_nil. reflexivity.
+    + assert (Hp : length p = n).
+      { simpl in Hab. apply andb_prop in Hab. destruct Hab as [Hab _]. apply N.eqb_eq in Hab. lia. }
+      assert (Hab' : all_but_last (fun x => N.of_nat (length x) =? N.of_nat n) (p2 :: ps) = true).
+      { simpl in Hab. apply andb_prop in Hab. destruct Hab as [_ Hab]. exact Hab. }
+      change (concat (p :: p2 :: ps)) with (p ++ concat (p2 :: ps)) in *.
+      rewrite app_length in Hf.
+      destruct fuel as [|fuel]; [lia|].
+      rewrite chunk_fuel_cons by (destruct p; simpl in *; [lia|discriminate]).
+      rewrite firstn_app, skipn_app, Hp, Nat.sub_diag, firstn_O, skipn_O, app_nil_r.
+      rewrite (firstn_all2 p) by lia. rewrite (skipn_all2 p) by lia. rewrite app_nil_l.
+      f_equal. apply IH; auto. lia.
 Qed.
 
 Lemma chunk_pieces (n : nat) (ps : list (list N)) :
   (1 <= n)%nat ->
   all_but_last (fun x => N.of_nat (length x) =? N.of_nat n) ps = true ->
-  (1 <= length (last ps [0%N]))%nat -> (length (last ps []) <= n)%nat ->
-  ps <> [] ->
+  (1 <= length (last ps []))%nat -> (length (last ps []) <= n)%nat ->
   chunk n (concat ps) = ps.
 Proof. intros. unfold chunk. apply chunk_fuel_pieces; auto. Qed.
